@@ -11,7 +11,7 @@ import hashlib
 
 from hypothesis import strategies as st
 
-from vlib.runner import good, bad, HarnessError, inconclusive
+from vlib.runner import good, bad, HarnessError, BaselineBroken, inconclusive
 from vlib.det import DET
 from vlib import scenario as sc
 from vlib import iana
@@ -86,7 +86,7 @@ def honest_records(p, side, items, salt):
         else:
             raise HarnessError(it)
         if not o.ok:
-            raise HarnessError("honest sender failed: %r" % (o,))
+            raise BaselineBroken("honest-sender", repr(o))
     raw = bytes(link.out[side].q)
     del link.out[side].q[:]
     recs, end = records(raw)
@@ -195,7 +195,7 @@ def check(case):
     copts, sopts = sc.pin(suite, v, etm=etm)
     p = sc.connect(copts, sopts)
     if not p.both_ok:
-        raise HarnessError("pinned handshake failed %r %r" % (p.co, p.so))
+        raise BaselineBroken("pinned-handshake:%04x:%s" % (sid, sc.VERNAME[v]), "%r %r" % (p.co, p.so))
     side = case["dir"]              # sender
     dst = "s" if side == "c" else "c"
     items = [it for it in case["items"] if it[0] != "ku" or v == (3, 4)]
@@ -258,7 +258,7 @@ def check(case):
         q.link.inject(dst, b"".join(H[:k]))
         exp_prefix, last = sc.read_all(q, dst)
         if last is not None and last.state == "exc":
-            raise HarnessError("honest prefix rejected: %r" % (last,))
+            raise BaselineBroken("honest-prefix-rejected", repr(last))
     else:
         exp_prefix = b""
     deviating = k < len(Dl) or (dend < len(delivered) and False)
